@@ -41,6 +41,9 @@ let handle (req : Sx.t) : Sx.t =
     L [A "table-ok"; sx_of_bool (ascii_ok classify)]
   | L [A "rt_job_template"; j] -> sx_of_outcome sx_of_rt (rt_job_template classify (json_of_sx j))
   | L [A "rt_env_template"; j] -> sx_of_outcome sx_of_rt (rt_env_template classify (json_of_sx j))
+  | L [A "rtf_job_template"; j] -> sx_of_outcome (fun ((o, ok), f) -> L [sx_of_json o; sx_of_bool ok; sx_of_bool f]) (rtf_job_template classify (json_of_sx j))
+  | L [A "rtf_env_template"; j] -> sx_of_outcome (fun ((o, ok), f) -> L [sx_of_json o; sx_of_bool ok; sx_of_bool f]) (rtf_env_template classify (json_of_sx j))
+  | L [A "jequiv"; a; b] -> sx_of_bool (jequivb (json_of_sx a) (json_of_sx b))
   | L [A "rt_job"; v] -> sx_of_rt (rt_job classify (mval_of_sx v))
   | L [A "create_verdict"; vals; t] ->
     let vs = list_of_sx (function L [n; ty; v] -> ((str_of_sx n, str_of_sx ty), str_of_sx v) | _ -> failwith "vals") vals in
